@@ -73,6 +73,13 @@ def build_source(rnd, d, FSM, sh):
         ops = ['store'] * 4 + ['multi'] * 2 + ['undo'] * 3 + ['undo2', 'delete', 'restore', 'empty', 'abort', 'reopen']
         fac = lambda: FSM.FileStorage(path)
         n = rnd.choice([4, 8, 14])
+        if rnd.random() < 0.35:
+            # focused: few objects, many (multi-)undos -> undo records pointing into multi-undo transactions that hold
+            # several records of one object
+            dr.oids = dr.oids[1:3]
+            ops = ['store'] * 4 + ['undo'] * 4 + ['undo2'] * 3 + ['undo3', 'multi']
+            n = rnd.choice([10, 16, 24])
+            dr.features.add('focused-undo')
         packed = False
         for i in range(n):
             dr.step(ops, fac)
